@@ -239,14 +239,58 @@ impl<'a> Sim<'a> {
 
     fn candidate(&mut self, view: &View, create_id: &str, tip: &[String], i: u32) -> Ev {
         let v = self.cfg.v;
-        let actor = self.t.pick(&view.all_users).clone();
+        // senders are mostly joined users (otherwise one rule swallows nearly every candidate)
+        let joined: Vec<String> = view.all_users.iter().filter(|u| view.membership(u) == "join").cloned().collect();
+        let actor = if !joined.is_empty() && self.t.chance(2, 3) { self.t.pick(&joined).clone() } else { self.t.pick(&view.all_users).clone() };
         let others: Vec<String> = view.all_users.iter().filter(|u| **u != actor).cloned().collect();
         let target = if others.is_empty() { actor.clone() } else { self.t.pick(&others).clone() };
         let mut ty = "m.room.member".to_string();
         let mut sk: Option<String> = None;
         let mut content;
         let mut redacts = None;
-        match self.t.below(16) {
+        let mut prev_override: Option<Vec<String>> = None;
+        match self.t.below(20) {
+            16 => {
+                // a second m.room.create: with / without prev events, creator present / absent
+                ty = "m.room.create".into();
+                sk = Some("".into());
+                let mut c = BTreeMap::new();
+                if v > 10 || self.t.chance(2, 3) {
+                    c.insert("creator".to_string(), J::Str(actor.clone()));
+                }
+                c.insert("room_version".to_string(), J::Str(v.to_string()));
+                content = J::Obj(c);
+                if self.t.chance(1, 2) {
+                    prev_override = Some(vec![]);
+                }
+            }
+            17 => {
+                // membership event without a state key
+                let m = *self.t.pick(&["join", "leave", "invite", "ban"]);
+                content = gen::member_content(self.t, m);
+                sk = None;
+            }
+            18 => {
+                // third-party invite with pieces missing
+                sk = Some(target.clone());
+                content = gen::member_content(self.t, "invite");
+                let token = view.tpi.first().map(|x| x.0.clone()).unwrap_or_else(|| "tok0".into());
+                let tpi = match self.t.below(5) {
+                    0 => o(vec![("display_name", J::s("x"))]),
+                    1 => o(vec![("signed", o(vec![("token", J::Str(token))]))]),
+                    2 => o(vec![("signed", o(vec![("mxid", J::Str(target.clone()))]))]),
+                    3 => o(vec![("signed", o(vec![("mxid", J::Str(target.clone())), ("token", J::Str(token))]))]),
+                    _ => J::s("not-an-object"),
+                };
+                content.set("third_party_invite", tpi);
+            }
+            19 => {
+                // restricted join authorised by a joined user (whose level may be too low)
+                sk = Some(actor.clone());
+                content = gen::member_content(self.t, "join");
+                let via = if joined.is_empty() { target.clone() } else { self.t.pick(&joined).clone() };
+                content.set("join_authorised_via_users_server", J::Str(via));
+            }
             0 => (sk, content) = (Some(actor.clone()), gen::member_content(self.t, "join")),
             1 => (sk, content) = (Some(actor.clone()), gen::member_content(self.t, "leave")),
             2 => (sk, content) = (Some(target.clone()), gen::member_content(self.t, "invite")),
@@ -318,7 +362,7 @@ impl<'a> Sim<'a> {
             auth.push(create_id.to_string());
         }
         let id = if v <= 2 { format!("$probe{i}:{}", revent::server_of_user(&actor).unwrap_or("x")) } else { format!("$probe{i}") };
-        Ev { id, room_id: self.room_id.clone(), sender: actor, ty, state_key: sk, content, ts: 5, prev: tip.to_vec(), auth, redacts }
+        Ev { id, room_id: self.room_id.clone(), sender: actor, ty, state_key: sk, content, ts: 5, prev: prev_override.unwrap_or_else(|| tip.to_vec()), auth, redacts }
     }
 
     /// I-plh (C20): helper predicates on the typed power levels vs. the real `auth_check`.
@@ -663,12 +707,37 @@ impl<'a> Sim<'a> {
         signers.push(("id.example".into(), SignKey::from_seed(self.idserver.sk.to_bytes(), &self.idserver.version)));
         let mut keys = self.keys.clone();
         keys.entry("id.example".into()).or_default().insert(self.idserver.key_id(), self.idserver.public().to_vec());
+        // rotated keys: the same entity signs again under a second key id
+        let rotated: Vec<(String, SignKey)> = signers
+            .iter()
+            .map(|(n, k)| {
+                let mut seed = k.sk.to_bytes();
+                seed[31] ^= 0x5a;
+                (n.clone(), SignKey::from_seed(seed, &format!("{}r", k.version)))
+            })
+            .collect();
+        for (n, k) in &rotated {
+            keys.entry(n.clone()).or_default().insert(k.key_id(), k.public().to_vec());
+        }
+        let n_primary = signers.len();
+        for (n, k) in rotated {
+            signers.push((n, k));
+        }
         let nsign = self.t.range(1, 3);
         let mut obj = base.clone();
         let mut signed_by: Vec<String> = Vec::new();
+        let mut last: Option<usize> = None;
         for _ in 0..nsign {
             let (ent, mk) = {
-                let i = self.t.index(signers.len());
+                // a third of the later signatures come from the previous signer's other key
+                let i = match last {
+                    Some(l) if self.t.chance(1, 3) => (l + n_primary) % signers.len(),
+                    _ => self.t.index(signers.len()),
+                };
+                last = Some(i);
+                if i >= n_primary || signed_by.contains(&signers[i].0) {
+                    self.flag("c02.same-entity-second-key");
+                }
                 (signers[i].0.clone(), SignKey::from_seed(signers[i].1.sk.to_bytes(), &signers[i].1.version))
             };
             let before = obj.clone();
